@@ -228,6 +228,29 @@ pub fn run(tier: Tier) -> i32 {
             ctx.scope_done(name, items.len() as u64, t0, "content lengths around the 7-bit boundaries of both size fields, incl. empty blocks");
         }
     }
+    // ---------------------------------------------------------------- many blocks: the index's record count needs 2 bytes from 128 on
+    {
+        let name = "many-blocks";
+        if ctx.may_start(name) {
+            let t0 = Instant::now();
+            let counts: Vec<usize> = tier.pick(vec![4, 127, 128, 129, 300], vec![4, 5, 16, 127, 128, 129, 255, 256, 257, 300, 1000, 16383, 16384, 16385]);
+            par_for(counts.len() as u64 * 3, |i| {
+                let nb = counts[i as usize / 3];
+                let check = [0u8, 1, 4][i as usize % 3];
+                let blocks: Vec<Block> = (0..nb)
+                    .map(|b| {
+                        let (p, plain) = stored_payload(b % 3, b);
+                        Block { payload: p, plain, with_csize: b % 2 == 0, with_usize: b % 5 == 0, ..Default::default() }
+                    })
+                    .collect();
+                let f = XzFile { check_id: check, blocks, ..Default::default() };
+                ctx.eval(1);
+                ctx.nontriv(1);
+                check_file(&ctx, &f, &format!("xz file with {} blocks of 0..2 content bytes, check {}", nb, check));
+            });
+            ctx.scope_done(name, counts.len() as u64 * 3, t0, "block counts around 2^7 (and 2^8, 2^14 in the thorough tier)");
+        }
+    }
     // ---------------------------------------------------------------- every legal LZMA2 dictionary-size property byte
     {
         let name = "lzma2-dict-property-0..40";
